@@ -73,6 +73,10 @@ func (l AbstractListSchema[ItemType]) Items() ItemType {
 	return l.ItemsValue
 }
 
+func (l AbstractListSchema[ItemType]) contained() Type {
+	return l.ItemsValue
+}
+
 func (l AbstractListSchema[ItemType]) Min() *int64 {
 	return l.MinValue
 }
